@@ -133,9 +133,9 @@ def eval_expr(e: ast.expr, env: dict[str, Any], oracle: Oracle | None = None) ->
                     return len(v)
             except AnalysisError:
                 pass
-        if f in ("max", "min", "int", "abs", "float", "round", "bool") and not e.keywords:
+        if f in ("max", "min", "int", "abs", "float", "round", "bool", "range") and not e.keywords:
             args = [eval_expr(a, env, oracle) for a in e.args]
-            return {"max": max, "min": min, "int": int, "abs": abs, "float": float, "round": round, "bool": bool}[f](*args)
+            return {"max": max, "min": min, "int": int, "abs": abs, "float": float, "round": round, "bool": bool, "range": range}[f](*args)
         if oracle is not None:
             v = oracle(e, env)
             if v is not NotImplemented:
